@@ -22,14 +22,25 @@ import (
 
 func (t *fnTr) nl() string { return "\n" + strings.Repeat("  ", t.ind+1) }
 
-func (t *fnTr) snapshot() map[interface{}]*fnVar {
+type fnSnap struct {
+	vars map[interface{}]*fnVar
+	dead map[int]bool
+}
+
+func (t *fnTr) snapshot() fnSnap {
 	m := make(map[interface{}]*fnVar, len(t.vars))
 	for k, v := range t.vars {
 		c := *v
 		m[k] = &c
 	}
-	return m
+	d := make(map[int]bool, len(t.dead))
+	for k, v := range t.dead {
+		d[k] = v
+	}
+	return fnSnap{m, d}
 }
+
+func (t *fnTr) restore(s fnSnap) { t.vars, t.dead = s.vars, s.dead }
 
 // local: the variable an identifier denotes, which must be a local variable or parameter of the function.
 func (t *fnTr) local(id *ast.Ident) *types.Var {
@@ -58,6 +69,10 @@ func (t *fnTr) assign(id *ast.Ident, v fnVal, k func() string) string {
 	}
 	obj := t.local(id)
 	ty, ok := fnClassify(obj.Type())
+	if !ok && obj.Type() == types.Typ[types.Invalid] && v.ty.k == fkBytes && t.vars[obj] == nil {
+		// the result of a function of a package outside go-bt (bytes.Join): go/types has no type for the variable
+		ty, ok = v.ty, true
+	}
 	if !ok {
 		t.fail(id, "variable %s has unsupported type %s", id.Name, obj.Type())
 	}
@@ -66,20 +81,60 @@ func (t *fnTr) assign(id *ast.Ident, v fnVal, k func() string) string {
 	if vr == nil {
 		vr = &fnVar{name: t.objName(obj, id.Name), ty: ty}
 	}
-	if ty.k == fkBytes || ty.k == fkInts {
+	t.setVar(obj, vr, v)
+	return t.bindVar(vr.name, v, k)
+}
+
+// setVar records that the variable with the given key now holds v: freshness and aliases of slices, number objects.
+func (t *fnTr) setVar(key interface{}, vr *fnVar, v fnVal) {
+	ty := vr.ty
+	if ty.k == fkBytes || ty.k == fkInts || ty.k == fkStack {
 		shared := false
+		var al []interface{}
 		for _, a := range v.alias {
-			if a != obj {
+			if a != key {
 				if av := t.vars[a]; av != nil {
 					av.fresh = false
 				}
 				shared = true
+				al = append(al, a)
+				if av := t.vars[a]; av != nil {
+					al = append(al, av.alias...)
+				}
 			}
 		}
 		vr.fresh = v.fresh && !shared
+		vr.alias = al
+		vr.stale = false
 	}
-	t.vars[obj] = vr
+	if ty.k == fkNum {
+		vr.cells = v.cells
+		vr.guard, vr.okNum = nil, true
+	}
+	if ty.k == fkErr {
+		t.forgetErr(key)
+	}
+	t.vars[key] = vr
+}
+
+// assignPath: `a.b.c = v` for a declared state field.
+func (t *fnTr) assignPath(n ast.Node, p string, v fnVal, k func() string) string {
+	vr := t.vars[p]
+	if vr == nil || !t.isState(p) {
+		t.fail(n, "assignment to %s, which is not in the declared state of the function", p)
+	}
+	v = t.coerce(n, v, vr.ty)
+	t.setVar(p, vr, v)
 	return t.bindVar(vr.name, v, k)
+}
+
+func (t *fnTr) isState(p string) bool {
+	for _, s := range t.state {
+		if s == p {
+			return true
+		}
+	}
+	return false
 }
 
 // freshLocal: the unaliased, locally allocated []byte variable that an in-place write goes to.
@@ -103,12 +158,22 @@ func (t *fnTr) stmt(s ast.Stmt, k func() string) string {
 	case *ast.BlockStmt:
 		return t.block(x.List, k)
 	case *ast.ReturnStmt:
+		if len(x.Results) == 1 && len(t.results) >= 1 {
+			if c, ok := x.Results[0].(*ast.CallExpr); ok {
+				if out, ok := t.returnCall(c); ok {
+					return out
+				}
+			}
+		}
 		if len(x.Results) != len(t.results) {
 			t.fail(s, "return with %d values for %d results", len(x.Results), len(t.results))
 		}
 		var vals []fnVal
 		for i, r := range x.Results {
 			vals = append(vals, t.coerce(r, t.expr(r), t.results[i]))
+		}
+		if len(vals) == 0 {
+			return t.ret(t.full(""))
 		}
 		r := t.seq(vals, func(ts []string) fnVal {
 			if len(ts) == 1 {
@@ -117,13 +182,32 @@ func (t *fnTr) stmt(s ast.Stmt, k func() string) string {
 			return fnVal{s: "(" + strings.Join(ts, ", ") + ")", pure: true}
 		})
 		if r.pure {
-			return t.ret(r.s)
+			return t.ret(t.full(r.s))
 		}
 		tmp := t.temp()
-		return "bind (" + r.s + ") (fun " + tmp + " => " + t.ret(tmp) + ")"
+		return "bind (" + r.s + ") (fun " + tmp + " => " + t.ret(t.full(tmp)) + ")"
 	case *ast.AssignStmt:
+		if len(x.Lhs) > 1 && len(x.Rhs) == 1 {
+			return t.assignCall(x, k)
+		}
+		if len(x.Lhs) > 1 && len(x.Lhs) == len(x.Rhs) && x.Tok == token.DEFINE {
+			return t.parallelDefine(x, k)
+		}
 		if len(x.Lhs) != 1 || len(x.Rhs) != 1 {
 			t.fail(s, "assignment with several operands")
+		}
+		if _, isSel := x.Lhs[0].(*ast.SelectorExpr); isSel && x.Tok == token.ASSIGN {
+			if p, ok := t.fieldPath(x.Lhs[0]); ok {
+				if out, ok := t.stmtCall(x.Rhs[0], []ast.Expr{x.Lhs[0]}, x.Tok, k); ok {
+					return out
+				}
+				return t.assignPath(s, p, t.rhsFor(x.Rhs[0], p), k)
+			}
+		}
+		if _, isId := x.Lhs[0].(*ast.Ident); isId && (x.Tok == token.DEFINE || x.Tok == token.ASSIGN) {
+			if out, ok := t.stmtCall(x.Rhs[0], x.Lhs, x.Tok, k); ok {
+				return out
+			}
 		}
 		if ix, ok := x.Lhs[0].(*ast.IndexExpr); ok {
 			_, vr := t.freshLocal(ix.X)
@@ -186,6 +270,9 @@ func (t *fnTr) stmt(s ast.Stmt, k func() string) string {
 		if !ok {
 			t.fail(s, "expression statement")
 		}
+		if out, ok := t.exprStmtInterp(c, k); ok {
+			return out
+		}
 		bits, ok := t.leCall(c, "PutUint")
 		if !ok || len(c.Args) != 2 {
 			t.fail(s, "call statement other than binary.LittleEndian.PutUintN")
@@ -215,7 +302,16 @@ func (t *fnTr) stmt(s ast.Stmt, k func() string) string {
 		if cond.ty.k != fkBool {
 			t.fail(s, "non-boolean condition")
 		}
-		return t.branch(cond, func() string { return t.block(x.Body.List, k) }, func() string {
+		errKey, nonNil, isErrTest := t.errTest(x.Cond)
+		return t.branch(cond, func() string {
+			if isErrTest && !nonNil {
+				t.markErrNil(errKey)
+			}
+			return t.block(x.Body.List, k)
+		}, func() string {
+			if isErrTest && nonNil {
+				t.markErrNil(errKey)
+			}
 			switch el := x.Else.(type) {
 			case nil:
 				return k()
@@ -248,6 +344,11 @@ func (t *fnTr) stmt(s ast.Stmt, k func() string) string {
 		return t.rangeStmt(x, k)
 	case *ast.ForStmt:
 		return t.forStmt(x, k)
+	case *ast.DeferStmt:
+		if t.isErasedCall(x.Call) {
+			return k()
+		}
+		t.fail(s, "defer of something other than a debugger callback of the stack")
 	}
 	t.fail(s, "unsupported statement %T", s)
 	return ""
@@ -276,7 +377,7 @@ func (t *fnTr) branch(cond fnVal, a, b func() string) string {
 	snap := t.snapshot()
 	t.ind++
 	as := a()
-	t.vars = snap
+	t.restore(snap)
 	bs := b()
 	t.ind--
 	c, pre, post := cond.s, "", ""
@@ -358,10 +459,13 @@ func (t *fnTr) switchStmt(x *ast.SwitchStmt, k func() string) string {
 	return pre(chain(0))
 }
 
-// assigned: the known variables that the given nodes re-bind (assignment, ++/--, in-place write), by position.
-func (t *fnTr) assigned(nodes ...ast.Node) []types.Object {
-	seen := map[types.Object]bool{}
-	note := func(e ast.Expr) {
+// assigned: the known variables that the given nodes re-bind (assignment, ++/--, in-place write, a call of a
+// printed function that writes state fields), as keys of t.vars: local variables by position, then state fields
+// in their declared order.
+func (t *fnTr) assigned(nodes ...ast.Node) []interface{} {
+	seen := map[interface{}]bool{}
+	var note func(e ast.Expr)
+	note = func(e ast.Expr) {
 		if se, ok := e.(*ast.SliceExpr); ok {
 			e = se.X
 		}
@@ -376,6 +480,10 @@ func (t *fnTr) assigned(nodes ...ast.Node) []types.Object {
 			if obj != nil && t.vars[obj] != nil {
 				seen[obj] = true
 			}
+			return
+		}
+		if p, ok := t.fieldPath(e); ok && t.vars[p] != nil {
+			seen[p] = true
 		}
 	}
 	for _, n := range nodes {
@@ -401,19 +509,41 @@ func (t *fnTr) assigned(nodes ...ast.Node) []types.Object {
 				if c, ok := y.X.(*ast.CallExpr); ok && len(c.Args) > 0 {
 					note(c.Args[0])
 				}
+				if c, ok := y.X.(*ast.CallExpr); ok {
+					if sel, ok := c.Fun.(*ast.SelectorExpr); ok && t.isNumMutator(c) {
+						note(sel.X)
+					}
+				}
+			case *ast.CallExpr:
+				for _, p := range t.callWrites(y) {
+					if t.vars[p] != nil {
+						seen[p] = true
+					}
+				}
 			}
 			return true
 		})
 	}
-	var out []types.Object
+	var objs []types.Object
 	for o := range seen {
+		if ob, ok := o.(types.Object); ok {
+			objs = append(objs, ob)
+		}
+	}
+	sort.Slice(objs, func(i, j int) bool { return objs[i].Pos() < objs[j].Pos() })
+	var out []interface{}
+	for _, o := range objs {
 		out = append(out, o)
 	}
-	sort.Slice(out, func(i, j int) bool { return out[i].Pos() < out[j].Pos() })
+	for _, p := range t.state {
+		if seen[p] {
+			out = append(out, p)
+		}
+	}
 	return out
 }
 
-func (t *fnTr) tuple(objs []types.Object) (value, binder, pattern string) {
+func (t *fnTr) tuple(objs []interface{}) (value, binder, pattern string) {
 	var ns []string
 	for _, o := range objs {
 		ns = append(ns, t.vars[o].name)
@@ -429,7 +559,7 @@ func (t *fnTr) tuple(objs []types.Object) (value, binder, pattern string) {
 }
 
 // loopBody prints the body of a loop as a function result of type M (ctl S R) and restores the translator state.
-func (t *fnTr) loopBody(n ast.Node, body *ast.BlockStmt, state []types.Object) string {
+func (t *fnTr) loopBody(n ast.Node, body *ast.BlockStmt, state []interface{}) string {
 	value, _, _ := t.tuple(state)
 	entry := map[interface{}]bool{}
 	for key, v := range t.vars {
@@ -449,11 +579,13 @@ func (t *fnTr) loopBody(n ast.Node, body *ast.BlockStmt, state []types.Object) s
 	t.ind += 2
 	s := t.block(body.List, t.cont)
 	t.ind -= 2
-	t.ret, t.brk, t.cont, t.vars = ret, brk, cont, snap
+	t.checkLoopNums(n, snap)
+	t.ret, t.brk, t.cont = ret, brk, cont
+	t.restore(snap)
 	return s
 }
 
-func (t *fnTr) afterLoop(loop string, state []types.Object, k func() string) string {
+func (t *fnTr) afterLoop(loop string, state []interface{}, k func() string) string {
 	_, _, pat := t.tuple(state)
 	a, r := t.temp(), t.temp()
 	t.ind++
@@ -486,7 +618,7 @@ func (t *fnTr) rangeStmt(x *ast.RangeStmt, k func() string) string {
 	return t.rangeOver(x, xs, state, k)
 }
 
-func (t *fnTr) rangeOver(x *ast.RangeStmt, xs fnVal, state []types.Object, k func() string) string {
+func (t *fnTr) rangeOver(x *ast.RangeStmt, xs fnVal, state []interface{}, k func() string) string {
 	value, binder, _ := t.tuple(state)
 	snap := t.snapshot()
 	keyName, rawName, intro := "_", "_", ""
@@ -513,50 +645,102 @@ func (t *fnTr) rangeOver(x *ast.RangeStmt, xs fnVal, state []types.Object, k fun
 		}
 	}
 	body := t.loopBody(x, x.Body, state)
-	t.vars = snap
+	t.restore(snap)
 	loop := "go_range (" + xs.s + ") 0 " + value + " (fun " + keyName + " " + rawName + " " + binder + " =>" + t.nl() + "    " + intro + body + ")"
 	return t.afterLoop(loop, state, k)
 }
 
-// forStmt: for i := a; i < e; i++ { ... } and the variants with <=, >, >= and --.
+// forStmt: for i := a; i < e; i++ { ... } and the variants with <=, >, >= and --; without an init statement the
+// loop variable is an existing variable (`for ; n > 0; n--`).  `for cond { ... }` is whileStmt (funcs_interp.go).
 func (t *fnTr) forStmt(x *ast.ForStmt, k func() string) string {
-	init, ok := x.Init.(*ast.AssignStmt)
-	if !ok || init.Tok != token.DEFINE || len(init.Lhs) != 1 || len(init.Rhs) != 1 {
-		t.fail(x, "for loop whose init is not `i := e`")
+	if x.Init == nil && x.Post == nil && x.Cond != nil {
+		return t.whileStmt(x, k)
 	}
-	iv, ok := init.Lhs[0].(*ast.Ident)
 	cond, ok2 := x.Cond.(*ast.BinaryExpr)
 	post, ok3 := x.Post.(*ast.IncDecStmt)
-	if !ok || !ok2 || !ok3 {
+	if !ok2 || !ok3 {
 		t.fail(x, "for loop that is not of the form `for i := a; i <op> e; i++/i--`")
 	}
+	var iv *ast.Ident
+	var ivObj types.Object
+	var initRhs ast.Expr
+	if x.Init == nil {
+		ci, ok := cond.X.(*ast.Ident)
+		if !ok || t.pkg.info.Uses[ci] == nil || t.vars[t.pkg.info.Uses[ci]] == nil {
+			t.fail(x, "for loop without init whose condition is not about a local variable")
+		}
+		iv, ivObj = ci, t.pkg.info.Uses[ci]
+	} else {
+		init, ok := x.Init.(*ast.AssignStmt)
+		if !ok || init.Tok != token.DEFINE || len(init.Lhs) != 1 || len(init.Rhs) != 1 {
+			t.fail(x, "for loop whose init is not `i := e`")
+		}
+		iv, ok = init.Lhs[0].(*ast.Ident)
+		if !ok {
+			t.fail(x, "for loop that is not of the form `for i := a; i <op> e; i++/i--`")
+		}
+		ivObj, initRhs = t.pkg.info.Defs[iv], init.Rhs[0]
+	}
+	// the loop variable alone, or the loop variable plus a loop-invariant offset: i < e, i+c < e, i-c >= e
+	var off ast.Expr
+	offSign := ""
 	ci, ok := cond.X.(*ast.Ident)
+	if !ok {
+		if be, isBin := cond.X.(*ast.BinaryExpr); isBin && (be.Op == token.ADD || be.Op == token.SUB) {
+			if id, isId := be.X.(*ast.Ident); isId {
+				ci, ok, off = id, true, be.Y
+				offSign = " + "
+				if be.Op == token.SUB {
+					offSign = " - "
+				}
+			}
+		}
+	}
 	pi, ok2 := post.X.(*ast.Ident)
-	if !ok || !ok2 || t.pkg.info.Uses[ci] != t.pkg.info.Defs[iv] || t.pkg.info.Uses[pi] != t.pkg.info.Defs[iv] {
+	if !ok || !ok2 || t.pkg.info.Uses[ci] != ivObj || t.pkg.info.Uses[pi] != ivObj {
 		t.fail(x, "for loop whose condition and post statement are not about the loop variable")
 	}
-	a, e := t.expr(init.Rhs[0]), t.expr(cond.Y)
+	var a fnVal
+	if initRhs != nil {
+		a = t.expr(initRhs)
+	} else {
+		a = t.expr(iv)
+	}
+	e := t.expr(cond.Y)
 	if !a.pure || !e.pure || a.ty.k != fkInt || e.ty.k != fkInt {
 		t.fail(x, "for loop bounds that are not pure integer expressions")
+	}
+	as := "(" + a.s + ")"
+	if off != nil {
+		o := t.expr(off)
+		if !o.pure || o.ty.k != fkInt {
+			t.fail(x, "for loop whose condition adds something other than a pure integer to the loop variable")
+		}
+		for _, w := range t.assigned(x.Body) {
+			if t.mentions(off, w) {
+				t.fail(x, "the offset in the loop condition is assigned in the loop")
+			}
+		}
+		as = "(" + a.s + offSign + "(" + o.s + "))"
 	}
 	var dist string
 	switch {
 	case cond.Op == token.LSS && post.Tok == token.INC:
-		dist = "(" + e.s + ") - (" + a.s + ")"
+		dist = "(" + e.s + ") - " + as
 	case cond.Op == token.LEQ && post.Tok == token.INC:
-		dist = "(" + e.s + ") - (" + a.s + ") + 1"
+		dist = "(" + e.s + ") - " + as + " + 1"
 	case cond.Op == token.GTR && post.Tok == token.DEC:
-		dist = "(" + a.s + ") - (" + e.s + ")"
+		dist = as + " - (" + e.s + ")"
 	case cond.Op == token.GEQ && post.Tok == token.DEC:
-		dist = "(" + a.s + ") - (" + e.s + ") + 1"
+		dist = as + " - (" + e.s + ") + 1"
 	default:
 		t.fail(x, "for loop whose condition and step do not move towards each other")
 	}
 	fuel := t.temp()
 	head := "let " + fuel + " := Z.to_nat (" + dist + ") in" + t.nl()
-	return head + t.assign(iv, a, func() string {
-		iobj := t.local(iv)
-		state := []types.Object{iobj}
+	rest := func() string {
+		iobj := ivObj
+		state := []interface{}{iobj}
 		for _, o := range t.assigned(x.Body) {
 			if o != iobj {
 				state = append(state, o)
@@ -569,34 +753,64 @@ func (t *fnTr) forStmt(x *ast.ForStmt, k func() string) string {
 		ret, brk, cont := t.ret, t.brk, t.cont
 		t.brk, t.cont = nil, nil
 		ps := t.stmt(x.Post, func() string { v, _, _ := t.tuple(state); return "Val " + v })
-		t.ret, t.brk, t.cont, t.vars = ret, brk, cont, snap
+		t.ret, t.brk, t.cont = ret, brk, cont
+		t.restore(snap)
 		loop := "go_for " + fuel + " " + value + t.nl() + "  (fun " + binder + " => " + c.asM() + ")" + t.nl() + "  (fun " + binder + " =>" + t.nl() +
 			"    " + body + ")" + t.nl() + "  (fun " + binder + " => " + ps + ")"
 		return t.afterLoop(loop, state, k)
+	}
+	if initRhs == nil {
+		return head + rest()
+	}
+	return head + t.assign(iv, a, rest)
+}
+
+// mentions: the expression reads the variable with the given key.
+func (t *fnTr) mentions(e ast.Expr, key interface{}) bool {
+	found := false
+	ast.Inspect(e, func(m ast.Node) bool {
+		switch y := m.(type) {
+		case *ast.Ident:
+			if obj := t.pkg.info.Uses[y]; obj != nil && obj == key {
+				found = true
+			}
+		case *ast.SelectorExpr:
+			if p, ok := t.fieldPath(y); ok && p == key {
+				found = true
+			}
+		}
+		return true
 	})
+	return found
 }
 
 // function prints the whole definition.
 func (t *fnTr) function(fd *ast.FuncDecl) string {
 	var params []string
 	roots := map[string]types.Type{}
-	addParam := func(id *ast.Ident) {
+	goIdx := 0
+	addParam := func(id *ast.Ident, idx int) {
 		obj := t.pkg.info.Defs[id]
 		if obj == nil {
 			t.fail(id, "unnamed or unresolved parameter")
 		}
 		if ty, ok := fnClassify(obj.Type()); ok && ty.k != fkErr && ty.k != fkNil {
 			v := &fnVar{name: t.newName(id.Name), ty: ty}
+			if ty.k == fkNum {
+				v.cells, v.okNum = []int{t.newCell()}, true
+			}
 			t.vars[obj] = v
 			params = append(params, "("+v.name+" : "+ty.coq()+")")
+			t.args = append(t.args, fnArg{goParam: idx, ty: ty})
 			return
 		}
 		roots[id.Name] = obj.Type()
+		t.rootIdx[id.Name] = idx
 	}
 	if fd.Recv != nil {
 		for _, f := range fd.Recv.List {
 			for _, id := range f.Names {
-				addParam(id)
+				addParam(id, -1)
 			}
 		}
 	}
@@ -605,7 +819,8 @@ func (t *fnTr) function(fd *ast.FuncDecl) string {
 			t.fail(f, "unnamed parameter")
 		}
 		for _, id := range f.Names {
-			addParam(id)
+			addParam(id, goIdx)
+			goIdx++
 		}
 	}
 	for _, p := range t.spec.Fields {
@@ -621,39 +836,98 @@ func (t *fnTr) function(fd *ast.FuncDecl) string {
 		t.names[name[2:]]++
 		t.vars[p] = &fnVar{name: name, ty: cty}
 		params = append(params, "("+name+" : "+cty.coq()+")")
+		t.args = append(t.args, fnArg{goParam: -2, path: p, ty: cty})
 	}
-	if fd.Type.Results == nil {
-		t.fail(fd, "function without results")
+	for _, p := range t.spec.State {
+		ty, ok := fnResolvePath(roots, p)
+		if !ok {
+			t.fail(fd, "the declared state field %s does not exist", p)
+		}
+		cty, ok := fnClassify(ty)
+		if !ok || cty.k == fkErr || cty.k == fkNil {
+			t.fail(fd, "the declared state field %s has unsupported type %s", p, ty)
+		}
+		name := "v_" + strings.NewReplacer(".", "_", "*", "deref_").Replace(p)
+		t.names[name[2:]]++
+		t.vars[p] = &fnVar{name: name, ty: cty}
+		t.state = append(t.state, p)
+		params = append(params, "("+name+" : "+cty.coq()+")")
+		t.args = append(t.args, fnArg{goParam: -2, path: p, ty: cty})
 	}
 	var rts []string
-	for _, f := range fd.Type.Results.List {
-		if len(f.Names) != 0 {
-			t.fail(f, "named results")
+	if fd.Type.Results != nil {
+		for _, f := range fd.Type.Results.List {
+			if len(f.Names) != 0 {
+				t.fail(f, "named results")
+			}
+			tv, ok := t.pkg.info.Types[f.Type]
+			if !ok {
+				t.fail(f, "untyped result")
+			}
+			ty, ok := fnClassify(tv.Type)
+			if !ok || ty.k == fkNil {
+				t.fail(f, "result of unsupported type %s", tv.Type)
+			}
+			t.results = append(t.results, ty)
+			rts = append(rts, ty.coq())
 		}
-		tv, ok := t.pkg.info.Types[f.Type]
-		if !ok {
-			t.fail(f, "untyped result")
-		}
-		ty, ok := fnClassify(tv.Type)
-		if !ok || ty.k == fkNil {
-			t.fail(f, "result of unsupported type %s", tv.Type)
-		}
-		t.results = append(t.results, ty)
-		rts = append(rts, ty.coq())
 	}
-	rt := rts[0]
-	if len(rts) > 1 {
+	if len(rts) == 0 && len(t.state) == 0 {
+		t.fail(fd, "function without results")
+	}
+	rt := ""
+	if len(rts) == 1 {
+		rt = rts[0]
+	} else if len(rts) > 1 {
 		rt = "(" + strings.Join(rts, " * ") + ")"
 	}
+	if len(t.state) > 0 {
+		var sts []string
+		for _, p := range t.state {
+			sts = append(sts, t.vars[p].ty.coq())
+		}
+		st := strings.Join(sts, " * ")
+		if len(sts) > 1 {
+			st = "(" + st + ")"
+		}
+		if rt == "" {
+			rt = st
+		} else {
+			rt = "(" + st + " * " + rt + ")"
+		}
+	}
+	t.noRes = len(rts) == 0
 	t.ret = func(s string) string { return "Val " + fnParen(s) }
 	body := t.block(fd.Body.List, func() string {
+		if t.noRes {
+			return t.ret(t.full(""))
+		}
 		t.fail(fd, "control can reach the end of the function without a return")
 		return ""
 	})
 	if len(body) > 200000 {
 		t.fail(fd, "the translation is too large (%d characters)", len(body))
 	}
-	return "Definition " + t.spec.Coq + " " + strings.Join(params, " ") + " : M " + rt + " :=" + "\n  " + body + "."
+	return "Definition " + t.spec.Coq + " " + strings.Join(params, " ") + " : M " + fnParen(rt) + " :=" + "\n  " + body + "."
+}
+
+// full: the value a return statement yields: the current values of the state fields, then the results.
+func (t *fnTr) full(res string) string {
+	if len(t.state) == 0 {
+		return res
+	}
+	var ns []string
+	for _, p := range t.state {
+		ns = append(ns, t.vars[p].name)
+	}
+	st := strings.Join(ns, ", ")
+	if len(ns) > 1 {
+		st = "(" + st + ")"
+	}
+	if res == "" {
+		return st
+	}
+	return "(" + st + ", " + res + ")"
 }
 
 // fnResolvePath: the Go type of a declared field path: "*s" (s a pointer parameter) or "a.b.c".
